@@ -26,6 +26,9 @@ type blockGen struct {
 	valOp   map[int]int // validator index -> operator key
 	nextVal int
 	dist    map[string]int
+	// candidate mode (worker loop): C lines with per-key running nonces instead of T lines
+	cand      bool
+	candNonce map[int]uint64
 }
 
 func (g *blockGen) emit(format string, a ...interface{}) bool {
@@ -61,7 +64,7 @@ func (g *blockGen) setup() bool {
 		gasLimit = 1 << 62
 	}
 	used0, rew0 := uint64(0), new(big.Int)
-	if r.Chance(20) {
+	if r.Chance(20) && !g.cand {
 		used0 = uint64(r.Intn(5000000))
 		rew0 = new(big.Int).Mul(big.NewInt(int64(used0)), pickPrice(r))
 	}
@@ -268,12 +271,20 @@ func (g *blockGen) nextTx() bool {
 			value = new(big.Int).Div(bal, big.NewInt(int64(r.Range(2, 50))))
 		}
 	}
+	if g.cand {
+		if n, ok := g.candNonce[key]; ok {
+			nonce = n
+		}
+	}
 	txKind := r.Weighted([]int{25, 22, 12, 18, 9})
 	if txKind == 3 && len(g.vals) > 0 && r.Chance(60) {
 		key = g.valOp[g.vals[r.Intn(len(g.vals))]]
 		from = addrs[key]
 		nonce = b.st.GetNonce(from)
 		bal = b.st.GetBalance(from)
+		if n, ok := g.candNonce[key]; ok && g.cand {
+			nonce = n
+		}
 	}
 	switch txKind {
 	case 0:
@@ -388,8 +399,10 @@ func (g *blockGen) nextTx() bool {
 			price = big.NewInt(int64(r.Intn(2)))
 			kind += "+pool-exact"
 		default:
-			sig = []string{"net", "unprot", "highs", "badv"}[r.Intn(4)]
-			kind += "+sig-" + sig
+			if !g.cand { // (the pool never hands the worker a transaction with a bad signature)
+				sig = []string{"net", "unprot", "highs", "badv"}[r.Intn(4)]
+				kind += "+sig-" + sig
+			}
 		}
 	}
 	g.dist["tx:"+kind]++
@@ -397,11 +410,43 @@ func (g *blockGen) nextTx() bool {
 	if to != nil {
 		toS = fmt.Sprintf("%x", to.Bytes())
 	}
+	if g.cand {
+		// running nonce of this key's candidate list: mostly consecutive, sometimes a duplicate nonce, sometimes a gap
+		switch {
+		case r.Chance(12):
+		case r.Chance(5):
+			g.candNonce[key] = nonce + 2
+		default:
+			g.candNonce[key] = nonce + 1
+		}
+		line := fmt.Sprintf("C %d %d %s %d %s %s %s", key, nonce, price, gas, toS, value, hexOrDash(data))
+		ok := g.emit("%s", line)
+		if r.Chance(6) {
+			ok = g.emit("%s", line) // the very same transaction offered twice
+		}
+		return ok
+	}
 	mode := "P"
 	if r.Chance(50) {
 		mode = "W"
 	}
 	return g.emit("T %s %d %s %d %s %d %s %s %s", mode, key, sig, nonce, price, gas, toS, value, hexOrDash(data))
+}
+
+// genWorkerBlock generates a candidate set and runs the worker loop + import on it.
+func genWorkerBlock(r *vh.RNG, drv *vh.Driver) (script []string, e *executor, dist map[string]int) {
+	g := &blockGen{r: r, e: newExecutor(drv), valOp: map[int]int{}, dist: map[string]int{}, cand: true, candNonce: map[int]uint64{}}
+	if !g.setup() || !g.e.ensureSealed() {
+		return g.script, g.e, g.dist
+	}
+	n := r.Range(6, 24)
+	for i := 0; i < n; i++ {
+		if !g.nextTx() {
+			break
+		}
+	}
+	g.emit("WORKER")
+	return g.script, g.e, g.dist
 }
 
 // genBlock generates and executes one block script.
